@@ -31,11 +31,22 @@ Qed.
 
 (* ---------- process death ---------- *)
 
+(* no incoming snapshot is being persisted (runs of a replica that never gets one) *)
+Lemma pending_none : forall c s hi, (if running s then VInv c s hi else RInv s) -> pending s = None.
+Proof.
+  intros c s hi HV. unfold pending. destruct (running s).
+  - destruct HV. unfold rd_inv in v_rd. destruct (rdp s) as [|r sv pb|r pb apd|r pb idx|r|r fl|r|r k]; try reflexivity; try contradiction.
+    + assert (X : r_snap r = 0) by (destruct sv; tauto). rewrite X. reflexivity.
+    + assert (X : r_snap r = 0) by (destruct apd; tauto). rewrite X. reflexivity.
+    + assert (X : r_snap r = 0) by tauto. rewrite X. reflexivity.
+  - destruct HV as [_ [Hr _]]. rewrite Hr. reflexivity.
+Qed.
+
 Lemma step_crash : forall c s s' j extra, Inv c s -> step c s (EvCrash j extra) = Ok s' -> Inv c s'.
 Proof.
   intros c s s' j extra [hi [HP HV]] H. unfold step in H.
   destruct (image s j extra) as [ss|] eqn:Im; [|discriminate]. injection H as <-.
-  unfold image in Im. destruct extra as [|e'].
+  unfold image, norm_image in Im. rewrite (pending_none c s hi HV) in Im. destruct extra as [|e'].
   - (* nothing of a save in flight reached the file *)
     destruct (Nat.leb j (unflushed s)) eqn:Lj; [|discriminate]. injection Im as <-. apply Nat.leb_le in Lj.
     destruct (pinv_crash s (reset_volatile (set_segs s (drop_tail (segs s) j))) hi j HP Lj) as [HP' Hnw]; try reflexivity.
@@ -44,14 +55,14 @@ Proof.
     + destruct (restoring_ok c s hi HV i H) as [A B]. rewrite Hnw. exact A.
     + destruct (restoring_ok c s hi HV i H) as [A B]. exact B.
   - (* a prefix of the records of the save in flight reached the file *)
-    destruct (rdp s) as [| | r pb apd | |] eqn:Er; try discriminate. destruct apd; try discriminate.
+    destruct (rdp s) as [| | r pb apd | | | | |] eqn:Er; try discriminate. destruct apd; try discriminate.
     destruct j; [|discriminate].
     remember (S e') as ex eqn:Eex.
     destruct (Nat.leb ex (length (ready_records r))) eqn:Le; [|discriminate]. injection Im as <-.
     assert (Hrun : running s = true).
     { destruct (running s) eqn:Q; auto. destruct HV as [_ [Hr _]]. congruence. }
     rewrite Hrun in HV. destruct HV as [v_rd _ _ _ v_ws _ _ _ _ _ _ _ _ _ v_pgw _].
-    unfold rd_inv in v_rd. rewrite Er in v_rd. destruct v_rd as [[F1 F2] [[Uhi [Uw [Uh Uc]]] _]].
+    unfold rd_inv in v_rd. rewrite Er in v_rd. destruct v_rd as [[F1 [F2 F3]] [[Uhi [Uw [Uh Uc]]] _]].
     destruct (save_entries_range s r hi Uhi F1) as [Erange Lrange].
     rewrite ready_records_eq, Erange.
     destruct (firstn_ents_state ex hi (rlast s r) (if r_hs r then [RState (r_commit r)] else []) Lrange)
@@ -149,6 +160,9 @@ Proof.
     unfold running, RInv. proj. rewrite R. destruct Hrc as [A [B [C [D E]]]]. repeat split; auto.
     all: try (match goal with Hk : Some _ = Some _ |- _ => injection Hk as <- end; assumption).
     all: try (intros l9 Hl; discriminate).
+  - (* RestoreFromSnapshot of an incoming snapshot: not reached by a replica that never gets one *)
+    exfalso. destruct (app s) eqn:Ea; try discriminate.
+    unfold running in HV. rewrite R in HV. destruct HV. rewrite Ea in v_app. exact v_app.
 Qed.
 
 Lemma step_rs_copied : forall c s s' i, Inv c s -> step c s (EvRsCopied i) = Ok s' -> Inv c s'.
@@ -170,13 +184,18 @@ Proof.
     all: try solve [intros l9 Hl9; injection Hl9 as <-; eapply p_ckpts; eauto].
     all: try solve [intros; discriminate].
     all: apply Hrs; assumption.
+  - (* RestoreFromSnapshot of an incoming snapshot: not reached by a replica that never gets one *)
+    exfalso. destruct (app s) eqn:Ea; try discriminate.
+    unfold running in HV. rewrite R in HV. destruct HV. rewrite Ea in v_app. exact v_app.
 Qed.
 
 Lemma step_rs_marker_gone : forall c s s', Inv c s -> step c s EvRsMarkerGone = Ok s' -> Inv c s'.
 Proof.
   intros c s s' [hi [HP HV]] H. unfold step in H.
   destruct (restoring s) as [j|] eqn:Rs; [|discriminate]. destruct (engine s) eqn:En; [|discriminate].
-  destruct (running s) eqn:Rn; [discriminate|]. injection H as <-.
+  destruct (running s) eqn:Rn.
+  { exfalso. destruct (app s) eqn:Ea; try discriminate. destruct HV. rewrite Ea in v_app. exact v_app. }
+  simpl in H. injection H as <-.
   exists hi. split; [pframe s|].
   unfold running in *. proj. destruct (rc s) eqn:R; try discriminate; unfold RInv in *; proj; rewrite R in *;
     decompose [and] HV; repeat split; auto; try discriminate.
@@ -219,6 +238,7 @@ Proof.
     + constructor.
     + intros f [].
     + exact Hck.
+    + reflexivity.
   - unfold running. proj.
     assert (Hn : newest [mkSeg 0 [RSnap 0]] = 0) by reflexivity.
     assert (Hl : last_commit (all_recs [mkSeg 0 [RSnap 0]]) = 0) by reflexivity.
@@ -255,7 +275,7 @@ Proof.
   assert (Hn0 : newest (segs s) = 0) by lia.
   pose proof (p_new_in _ _ HP) as Hin. rewrite Hn0 in Hin.
   pose proof (p_first _ _ HP) as Hf. rewrite Hn0 in Hf. unfold hd_first in Hf.
-  destruct (read_all_chain _ _ _ 0 (p_chain _ _ HP) ltac:(unfold lo_of; lia) Hf Hin) as [cm' Ra'].
+  destruct (read_all_chain _ _ _ 0 (p_local _ _ HP) (p_chain _ _ HP) ltac:(unfold lo_of; lia) Hf Hin) as [cm' Ra'].
   rewrite Ra in Ra'. injection Ra' as Er _.
   assert (Hhi : hi = 0). { destruct (N.eq_dec hi 0); auto. rewrite range_cons in Er by lia. discriminate. }
   assert (Hak : acked s = 0) by (pose proof (p_acked _ _ HP); lia).
@@ -289,7 +309,7 @@ Proof.
   pose proof (p_first _ _ HP) as Hf. rewrite <- Hi in Hf. unfold hd_first in Hf.
   pose proof (pinv_newest_le_hi _ _ HP) as Hle. rewrite <- Hi in Hle.
   pose proof (pinv_lc0 _ _ HP) as Hlc. rewrite <- Hi in Hlc.
-  destruct (read_all_chain _ _ _ i (p_chain _ _ HP) ltac:(unfold lo_of; lia) Hf Hin) as [cm Ra].
+  destruct (read_all_chain _ _ _ i (p_local _ _ HP) (p_chain _ _ HP) ltac:(unfold lo_of; lia) Hf Hin) as [cm Ra].
   destruct (read_all_commit _ _ _ _ Ra) as [p [Hcov [Hcm [Hp Hpf]]]].
   rewrite Ra, Hcov in H.
   destruct (negb (n =? N.of_nat (length (range i hi))) || negb (lastp =? last_of (range i hi)) || negb (commit =? cm)) eqn:G; [discriminate|].
